@@ -101,7 +101,11 @@ class EvaluatedName(PyName):
 
 
 class ParameterName(PyName):
-    pass
+    def get_object(self):
+        return rope.base.pyobjects.get_unknown()
+
+    def get_definition_location(self):
+        return (None, None)
 
 
 class ImportedModule(PyName):
